@@ -74,6 +74,11 @@ def int_ty(tystr):
     return tystr if tystr in INT_RANGES else None
 
 
+# value ranges chrono documents for its accessors
+DOCUMENTED_RANGES = {
+    "Weekday::num_days_from_monday": (0, 6), "Weekday::number_from_monday": (1, 7), "Weekday::num_days_from_sunday": (0, 6),
+    "Weekday::number_from_sunday": (1, 7), "Month::number_from_month": (1, 12),
+}
 _WIDEN = re.compile(r"^<(\w+) as From<(\w+)>>::from$")
 COUNT_PRESERVING = ("Iterator::map", "Iterator::enumerate", "Iterator::rev", "Iterator::inspect", "Iterator::cloned",
                     "Iterator::copied", "Iterator::by_ref", "IntoIterator::into_iter", "Iterator::peekable")
@@ -171,6 +176,8 @@ def rng(e, depth=0):
                             return (min(r[0] for r in rs), max(r[1] for r in rs))
         return None
     if k == "call":
+        if e[1] in DOCUMENTED_RANGES:
+            return DOCUMENTED_RANGES[e[1]]
         if e[1] in PURE_LEN:
             n = _iter_count(e[3][0], depth + 1) if e[3] else None
             return (0, n) if n is not None else (0, 2**63 - 1)
